@@ -36,6 +36,10 @@ pub struct GenCfg
     pub soak : bool,            // long soak: one small graph built from dozens of distinct source states, then reverts
     pub moves : bool,           // user `mv` onto a target (keeps the old mtime); only sound to demand
                                 // anything about it when distinct writes carry distinct mtimes
+    pub prune_dirs : bool,      // the user removes emptied output directories (verdicts are then outside the reference model)
+    pub crowds : bool,          // one case in ~250: 40-220 rules (limits, batching, quadratic paths)
+    pub outside_leaves : bool,  // leaves spelled "../<target>" or "/<target>": different files whose
+                                // names contain a target's name (never on the real file system)
 }
 
 impl GenCfg
@@ -67,6 +71,9 @@ impl GenCfg
             fail_rate : 4,
             soak : false,
             moves : true,
+            prune_dirs : false,
+            crowds : true,
+            outside_leaves : true,
         }
     }
 }
@@ -86,6 +93,9 @@ pub struct Gen
     with_dir : bool,
     big_files : bool,
     odd_names : bool,
+    long_names : bool,
+    crowd : bool,
+    extra_dirs : Vec<String>,
 }
 
 const LETTERS : &[&str] = &["a", "b", "c", "d", "e", "k", "m", "z"];
@@ -96,11 +106,16 @@ impl Gen
     {
         let mut rng = Rng::new(seed);
         let shared_pool = cfg.shared_pool || rng.chance(1, 3);
-        let with_dir = rng.chance(1, 4);
+        let with_dir = rng.chance(1, 4) || (cfg.prune_dirs && rng.chance(2, 3));
         let big_files = rng.chance(1, 5);
         let odd_names = rng.chance(1, 8);
+        let long_names = rng.chance(1, 12);
+        let crowd = cfg.crowds && !cfg.soak && rng.chance(1, 250);
         Gen
         {
+            long_names : long_names,
+            crowd : crowd,
+            extra_dirs : vec![],
             rng : rng,
             cfg : cfg,
             next_name : 0,
@@ -120,7 +135,13 @@ impl Gen
     {
         self.next_name += 1;
         let letter = if self.odd_names && self.rng.chance(1, 3) { *self.rng.pick(&["\u{e9}", "\u{f1}", "\u{3b1}", "\u{6587}"]) } else { *self.rng.pick(LETTERS) };
-        let base = format!("{}{}{}", letter, kind, self.next_name);
+        let mut base = format!("{}{}{}", letter, kind, self.next_name);
+        if self.long_names && self.rng.chance(1, 2)
+        {
+            // names beyond any terminal width / small fixed buffer, sharing a long suffix
+            let n = *self.rng.pick(&[50usize, 66, 67, 68, 69, 80, 127, 128, 129, 200]);
+            base = format!("{}_{}", base, "generated-protocol-messages-inventory-".repeat(6)[..n].to_string());
+        }
         if self.with_dir && kind == "t"
         {
             match self.rng.below(7)
@@ -279,8 +300,8 @@ impl Gen
         {
             self.new_leaf();
         }
-        let n_rules = self.rng.range(1, self.cfg.max_rules);
-        let shape = self.rng.below(10);
+        let n_rules = if self.crowd { *self.rng.pick(&[40usize, 63, 64, 65, 66, 100, 127, 128, 129, 130, 220]) } else { self.rng.range(1, self.cfg.max_rules) };
+        let shape = if self.crowd { *self.rng.pick(&[1u64, 2, 9, 9, 9]) } else { self.rng.below(10) };
         for i in 0..n_rules
         {
             let mut r = self.make_rule(i);
@@ -339,10 +360,41 @@ impl Gen
         {
             self.add_twins();
         }
+        if self.cfg.outside_leaves && self.rules.len() >= 2 && self.rng.chance(1, 12)
+        {
+            self.add_outside_leaf();
+        }
         if self.cfg.hidden
         {
             self.add_hidden();
         }
+    }
+
+    /* A leaf whose spelling contains the whole name of another rule's target behind `..` or `/`:
+       "../out/t5" and "/out/t5" are not "out/t5".  Anything that identifies files by a cleaned-up
+       form of the path instead of the path confuses them. */
+    fn add_outside_leaf(&mut self)
+    {
+        let ri = self.rng.below(self.rules.len() as u64) as usize;
+        let target = self.rng.pick(&self.rules[ri].targets).clone();
+        let mut qi = self.rng.below(self.rules.len() as u64) as usize;
+        if qi == ri { qi = (qi + 1) % self.rules.len(); }
+        let name = if self.rng.chance(1, 2) { format!("../{}", target) } else { format!("/{}", target) };
+        // every ancestor directory of the new name
+        let mut acc = String::new();
+        let parts : Vec<&str> = name.split('/').collect();
+        for (i, part) in parts[..parts.len() - 1].iter().enumerate()
+        {
+            if i > 0 { acc.push('/'); }
+            acc.push_str(part);
+            if acc != "" && !self.extra_dirs.contains(&acc) { self.extra_dirs.push(acc.clone()); }
+        }
+        let c = self.content_for(&name);
+        self.files.insert(name.clone(), c);
+        self.leaves.push(name.clone());
+        let mut q = self.rules[qi].clone();
+        force_source(&mut q, &name);
+        self.rules[qi] = q;
     }
 
     /* two single-target rules with the same source, salt and inputs: byte-identical outputs */
@@ -724,7 +776,8 @@ impl Gen
             Some(c) => c,
             None => if self.rng.chance(1, 2) { ClockMode::Distinct } else { ClockMode::Tick },
         };
-        Knobs{ read_chunk, write_chunk, yield_on_read : !self.big_files && self.rng.chance(1, 4), clock }
+        let read_chunk = if self.crowd && read_chunk < 255 { 0 } else { read_chunk };
+        Knobs{ read_chunk, write_chunk, yield_on_read : !self.big_files && !self.crowd && self.rng.chance(1, 4), clock }
     }
 
     /* Long soak: depth of per-rule memory instead of breadth of scenarios.  A small graph is built
@@ -774,7 +827,8 @@ impl Gen
         files.push(("README".to_string(), b"bystander".to_vec()));
 
         let mut n_ops = self.rng.range(self.cfg.min_ops, self.cfg.max_ops);
-        if self.cfg.max_ops >= 6 && self.rng.chance(1, 60)
+        if self.crowd { n_ops = std::cmp::min(n_ops, 5); }
+        else if self.cfg.max_ops >= 6 && self.rng.chance(1, 60)
         {
             n_ops = self.rng.range(self.cfg.max_ops, 3 * self.cfg.max_ops);   // a long history now and then
         }
@@ -795,6 +849,11 @@ impl Gen
                 let goal = if self.cfg.goals && self.rng.chance(1, 3) { self.goal() } else { None };
                 let sched = self.sched();
                 ops.push(Op::Clean{ goal, sched });
+                if self.cfg.prune_dirs && self.with_dir && self.rng.chance(1, 2) { ops.push(Op::PruneDirs); }
+            }
+            else if self.cfg.prune_dirs && self.with_dir && roll >= 96
+            {
+                ops.push(if self.rng.chance(1, 2) { Op::PruneDirs } else { Op::MakeDirs });
             }
             else
             {
@@ -817,6 +876,7 @@ impl Gen
             dirs.push("out/deep".to_string());
             dirs.push("out/deep/er".to_string());
         }
+        dirs.extend(self.extra_dirs.iter().cloned());
         // configuration: where ruler keeps its state and what the rules files are called
         if self.rng.chance(1, 4)
         {
